@@ -342,3 +342,35 @@ End Pack.
 
 Definition pack_c (cpb : Z) (addr : bytes) (mvs : Z) (change : value) : option (list masset) :=
   pack_model (ovf_c cpb addr mvs) change.
+
+(* ================================================================= notions used by the theorems *)
+Definition covers (arr : list masset) (m : masset) : Prop := forall p n, sum_content arr p n = content m p n.
+
+(* the ledger environment the builder assumes: its own protocol parameters, and
+   initial_stake_pool_registration = "none of the pools registered here is known to the chain" *)
+Definition ledger_params (st : bstate) : params := mkParams (b_kd st) (b_pd st) (fun _ => negb (b_initial st)).
+
+
+(* build () after selection: self.inputs = ins; _add_change_and_fee; _build_tx_body *)
+Definition build_tail (minada : value -> Z) (pack : value -> option (list masset)) (est : list output -> Z -> Z)
+           (st : bstate) (merge : bool) (ins : list utxo) (outs : list output) (fee0 : Z)
+  : cc_err + (list (bytes * N) * list output * Z) :=
+  match add_change_and_fee minada pack est st merge (map u_val ins) outs fee0 with
+  | inl e => inl e
+  | inr (outs', fee') => inr (dedup_txins (map u_in ins), outs', fee')
+  end.
+
+Fixpoint resolve_all (m : list utxo) (l : list (bytes * N)) : option (list value) :=
+  match l with
+  | [] => Some []
+  | i :: r => match resolve m i, resolve_all m r with
+              | Some v, Some vs => Some (v :: vs)
+              | _, _ => None
+              end
+  end.
+
+Definition ada_only (vs : list value) : Prop := Forall (fun v => massets v = []) vs.
+
+(* a UTxO set is consistent when a transaction input determines the whole UTxO (true of any chain) *)
+Definition consistent (l : list utxo) : Prop :=
+  forall a b, In a l -> In b l -> u_in a = u_in b -> utxo_eqb b a = true.
